@@ -194,6 +194,8 @@ type verifC25Group struct {
 	row       int64
 	delivered bool
 	refused   bool // a transmission containing the group failed (on this incarnation of the service)
+	rushed    bool // handed over in a burst: the next stimulus (a snapshot sync) followed before the service came to rest
+	synced    bool // handed over before a snapshot sync that was answered
 	abandoned bool // ... and the node stepped down before any transmission of it succeeded
 }
 
@@ -234,6 +236,9 @@ type verifC25World struct {
 	restarted bool
 
 	clusterHWM uint64 // largest HWM update received from the cluster: other leaders delivered everything <= it
+
+	burst     bool // hand() does not wait for the service to come to rest (the next stimulus races with it)
+	confirmed bool // this incarnation of the service has had a transmission accepted or an HWM update from the cluster
 
 	lastTenure    int
 	lastDelivered uint64
@@ -277,6 +282,7 @@ func (w *verifC25World) boot() {
 	verifAssert("C25-service-starts", svc.Start() == nil)
 	w.svc = svc
 	w.leader = false // a service starts as follower
+	w.confirmed = false
 	w.settle()
 }
 
@@ -341,14 +347,30 @@ func (w *verifC25World) undelivered(g *verifC25Group, id string) {
 	if w.inFlightAtStepDown(g) {
 		verifFinding("C25-in-flight-batch-forgotten-at-step-down")
 	}
+	if w.overtakenBySnapshotSync(g) {
+		verifFinding("C25-snapshot-sync-overtakes-groups-in-hand-off-channel")
+	}
 	verifAssert(id, false)
 }
+
+// overtakenBySnapshotSync: recorded defect class - the group was still in the hand-off channel
+// (the service had not come to rest) when the snapshot sync was requested; the sync was answered,
+// the node restarted, and the group is in neither the disk queue nor the log.
+func (w *verifC25World) overtakenBySnapshotSync(g *verifC25Group) bool {
+	return g.rushed && g.synced && w.restarted
+}
+
+// startupGuessAnnounced: recorded defect class - the announced high watermark is the value
+// NewService derived from the disk queue (first key - 1): since this incarnation started, no
+// transmission succeeded and no HWM update arrived from the cluster.
+func (w *verifC25World) startupGuessAnnounced() bool { return w.restarted && !w.confirmed }
 
 // delivered: the endpoint accepted payload p.
 func (w *verifC25World) delivered(p verifC25Payload) {
 	msgs, ok := verifC25Decode(p.data)
 	verifAssert("C25-payload-well-formed", ok)
 	verifAssert("C25-payload-not-empty", len(msgs) > 0)
+	w.confirmed = true
 	for _, m := range msgs {
 		// the message is one of the groups handed over, labelled with its entry's index
 		verifAssert("C25-message-has-one-row-event", len(m.rows) == 1)
@@ -377,6 +399,9 @@ func (w *verifC25World) announced(v uint64) {
 	verifAssert("C25-announced-hwm-not-zero", v != 0)
 	for _, g := range w.groups {
 		if g.index <= v && !g.delivered && !w.covered(g.index) {
+			if w.startupGuessAnnounced() && !w.laterGroup(g) {
+				verifFinding("C25-hwm-guessed-at-startup-is-announced")
+			}
 			w.undelivered(g, "C25-hwm-announced-only-for-delivered-entries")
 		}
 	}
@@ -397,6 +422,11 @@ func (w *verifC25World) tick(d time.Duration) {
 func (w *verifC25World) hand(g *verifC25Group) {
 	ev := &proto.CDCEvent{Op: proto.CDCEvent_INSERT, Table: "t", NewRowId: g.row}
 	w.svc.C() <- &proto.CDCIndexedEventGroup{Index: g.index, Events: []*proto.CDCEvent{ev}, CommitTimestamp: 1}
+	if w.burst {
+		// like store.fsmApply: the group sits in the hand-off channel and the store goes on
+		g.rushed = true
+		return
+	}
 	w.settle()
 }
 
@@ -476,6 +506,9 @@ func (w *verifC25World) snapshotSync() {
 	verifAssert("C25-snapshot-sync-answered", answered)
 	verifReach("snapshot-sync")
 	w.snapPoint = len(w.groups)
+	for _, g := range w.groups {
+		g.synced = true
+	}
 	w.curEntry = -1 // snapshots happen between log entries
 }
 
@@ -503,6 +536,7 @@ func (w *verifC25World) clusterUpdate(v uint64) {
 	if v > w.clusterHWM {
 		w.clusterHWM = v
 	}
+	w.confirmed = true
 	w.clstr.hwmCh <- v
 	w.settle()
 }
@@ -546,6 +580,7 @@ const (
 	vC25TickHWM
 	vC25ClusterHWM
 	vC25Outage
+	vC25BurstSnapshot
 	vC25NumOps
 )
 
@@ -596,6 +631,22 @@ func (w *verifC25World) step(i int, ops []int) bool {
 			return false
 		}
 		w.clusterUpdate(verifC25Indexes[k])
+	case vC25BurstSnapshot:
+		// store.fsmApply hands over the groups of one or two log entries and goes on; the next
+		// thing the store does is a snapshot: the sync request reaches the service while groups
+		// may still be in the hand-off channel
+		n := 2 + verifChoice(verifName("burst", i), 1+verifTier())
+		w.burst = true
+		for k := 0; k < n; k++ {
+			more := k > 0 && verifChoice(verifName("burstmore", 10*i+k), 2) == 1
+			if !w.feed(more) {
+				w.burst = false
+				return false
+			}
+		}
+		w.burst = false
+		verifReach("snapshot-sync-after-burst")
+		w.snapshotSync()
 	}
 	return true
 }
@@ -686,6 +737,42 @@ func VerifC25bOutage() {
 // woken by a stimulus can run (the other entries let them run in one fixed order).
 func VerifC25bSchedules() {
 	verifC25History(1, 3, true, []int{vC25Feed, vC25FeedMore, vC25FailNext, vC25Leader})
+}
+
+// VerifC25bSnapshotRace: the snapshot sync is requested while groups handed over just before it
+// are still in the hand-off channel (writeToBatcher's select then has the hand-off channel AND the
+// sync request ready: which one it takes is a scheduler decision, explored both ways - as is
+// every other select with several ready cases). Afterwards restart etc.: what was handed over
+// before an answered sync is not applied again.
+func VerifC25bSnapshotRace() {
+	steps := 2
+	if verifTier() == 1 {
+		steps = 3
+	}
+	verifC25HistoryFrom(1+verifChoice("batchSz", 2), steps, verifChoice("startLeader", 2) == 1,
+		[]int{vC25BurstSnapshot},
+		[]int{vC25Restart, vC25Feed, vC25TickBatch, vC25BurstSnapshot, vC25Leader})
+}
+
+// VerifC25bSnapshotRacePreempt (thorough tier): the same start with every order of the runnable
+// goroutines and one preemption.
+func VerifC25bSnapshotRacePreempt() {
+	verifC25HistoryFrom(1+verifChoice("batchSz", 2), 1, verifChoice("startLeader", 2) == 1,
+		[]int{vC25BurstSnapshot}, []int{vC25Restart})
+}
+
+// VerifC25bStartup: what a restarted service does with a disk queue whose batches were never
+// transmitted (the node was follower, or the endpoint was down): two entries are in the disk
+// queue - in one batch or in two - then every history of restart, leader change, outage on-off,
+// HWM interval, feed, HWM update from the cluster.
+func VerifC25bStartup() {
+	steps := 4
+	if verifTier() == 1 {
+		steps = 5
+	}
+	verifC25HistoryFrom(1+verifChoice("batchSz", 2), steps, false,
+		[]int{vC25Feed, vC25Feed, vC25TickBatch},
+		[]int{vC25Restart, vC25Leader, vC25Outage, vC25TickHWM, vC25Feed, vC25ClusterHWM})
 }
 
 // VerifC25bTwin: same world; the final assertion contradicts the property and must fail.
